@@ -146,7 +146,7 @@ class EngineCore:
         if isinstance(goal, bool):
             goal = z3.BoolVal(goal)
         g = z3.simplify(goal)
-        base = f"{self.cur_fn_key}:{kind}:{line}:{name}"
+        base = f"{self.cur_fn_key}:{kind}:{name}"
         n = self._ident_count.get(base, 0) + 1
         self._ident_count[base] = n
         if z3.is_true(g):
